@@ -1343,7 +1343,7 @@ func (s *rs_sim) randomStep() {
 			s.tick(r)
 		}
 	case x < 36:
-		if isLeader && s.cfg.Profile != "noconf" && s.cfg.Profile != "growone" && s.cfg.Profile != "snapdiv" && s.cfg.Profile != "shrinkq" && s.cfg.Profile != "readlearner" && s.cfg.Profile != "lostvote" {
+		if isLeader && s.cfg.Profile != "noconf" && s.cfg.Profile != "growone" && s.cfg.Profile != "snapdiv" && s.cfg.Profile != "shrinkq" && s.cfg.Profile != "readlearner" && s.cfg.Profile != "lostvote" && s.cfg.Profile != "learnervote" {
 			s.proposeConfRandom(r)
 		} else {
 			s.tick(r)
@@ -1474,6 +1474,49 @@ func (s *rs_sim) scenarioLearnerVote() {
 	}
 	s.blocked = map[uint64]bool{}
 	s.phase = old
+}
+
+// scenarioLearnerVoteDirected (profile learnervote): scenarioLearnerVote for every learner named on
+// the command line, up front and independent of the nemesis' dice - the learner is added, the group
+// settles, then the promotion / cut-off / campaign / delivery schedule runs.
+func (s *rs_sim) scenarioLearnerVoteDirected() {
+	for _, L := range s.cfg.Learners {
+		for try := 0; try < 6 && !s.panicked; try++ {
+			s.blocked = map[uint64]bool{}
+			if s.electLeader() == 0 {
+				return
+			}
+			s.calmRounds(2)
+			l := s.leaderID()
+			if l == 0 {
+				continue
+			}
+			lr := s.reps[l]
+			if lr.rd != nil {
+				s.finishReady(lr)
+			}
+			lv := raft.VerifState(lr.n)
+			if rs_contains(lv.Voters, L) {
+				break
+			}
+			if lv.PendingConf || lr.rd != nil {
+				s.calmRounds(2)
+				continue
+			}
+			if !rs_contains(lv.Learners, L) {
+				s.proposeConf(lr, pb.ConfChangeAddLearnerNode, L)
+				s.calmRounds(4)
+				continue
+			}
+			before := s.cnt["scenario_learner_vote_delivered"]
+			s.scenarioLearnerVote()
+			s.calmRounds(3)
+			if s.cnt["scenario_learner_vote_delivered"] > before {
+				break
+			}
+		}
+	}
+	s.blocked = map[uint64]bool{}
 }
 
 // finishReady completes the outstanding Ready of r (persist, owed conf changes, send, advance)
@@ -2731,6 +2774,9 @@ func raftsim(args []string) error {
 		if s.cfg.Profile == "readlearner" {
 			s.scenarioStaleReadViaLearner()
 		}
+		if s.cfg.Profile == "learnervote" {
+			s.scenarioLearnerVoteDirected()
+		}
 		if s.cfg.Profile == "lostvote" && len(s.cfg.Voters) >= 4 && !s.cfg.CQ && !s.cfg.PreVote {
 			for v := 0; v < 2 && !s.panicked; v++ {
 				s.scenarioLostVote((int(*seed) + v) % 2)
@@ -2761,7 +2807,7 @@ func raftsim(args []string) error {
 			}
 		}
 		// learners named on the command line: added by whoever leads, early in the run
-		pendingLearnersDone := s.cfg.Profile == "readlearner"
+		pendingLearnersDone := s.cfg.Profile == "readlearner" || s.cfg.Profile == "learnervote"
 		pendingLearners := append([]uint64{}, s.cfg.Learners...)
 		phaseEnd := 0
 		for s.step = 0; s.step < *steps && !s.panicked; s.step++ {
